@@ -440,6 +440,28 @@ func errorProvenance(r Result, ci CallInfo, e scen.Event, prop string) *Violatio
 			errs = append(errs, ne{srv, m[2]})
 		}
 	}
+	if ci.Kind != "RPC" && !scen.IsStream(ci.Kind) {
+		// at most once per node: a node of a non-streaming call is heard of once, as a reply or as an error
+		seen := map[int]bool{}
+		for _, x := range errs {
+			if seen[x.srv] {
+				return viol(prop+"/provenance/"+fam+"/node-failed-twice", "call %d (%s): server %d is listed twice among the call's node errors: %s", ci.Idx, ci.Kind, x.srv, e.ErrText)
+			}
+			seen[x.srv] = true
+		}
+		for _, q := range r.Events {
+			if q.Kind != "qf" || q.Token != e.Token || q.T > e.T {
+				continue
+			}
+			for id := range q.Replies {
+				for s, sid := range ids {
+					if sid == id && seen[s] {
+						return viol(prop+"/provenance/"+fam+"/reply-and-error", "call %d (%s): server %d is listed among the call's node errors although its reply had been shown to the quorum function: %s", ci.Idx, ci.Kind, s, e.ErrText)
+					}
+				}
+			}
+		}
+	}
 	for _, x := range errs {
 		m := stampRe.FindStringSubmatch(x.text)
 		if m == nil {
